@@ -90,12 +90,16 @@ class Mp11 : public msm::backmp11::state_machine<Front, Config, Mp11<Front, Conf
 #define RT_BACK(Front, Hist) ::boost::msm::back::state_machine<Front, Hist, ::boost::msm::back::queue_container_circular>
 #elif CFG == 4
 #define RT_BACK(Front, Hist) ::boost::msm::back11::state_machine<Front, void, Hist>
+#define RT_BACK_UP(Front, Hist, Upper) ::boost::msm::back11::state_machine<Front, Upper, Hist>
 #elif CFG == 5
 #define RT_BACK(Front, Hist) ::rt::Mp11<Front, ::rt::cfg_plain>
 #elif CFG == 6
 #define RT_BACK(Front, Hist) ::rt::Mp11<Front, ::rt::cfg_fpa>
 #elif CFG == 7
 #define RT_BACK(Front, Hist) ::rt::Mp11<Front, ::rt::cfg_ct>
+#endif
+#ifndef RT_BACK_UP
+#define RT_BACK_UP(Front, Hist, Upper) RT_BACK(Front, Hist)
 #endif
 
 #if CFG <= 3
@@ -141,6 +145,19 @@ inline std::string owner_tag(const void* p) {
     if (o == C().cur_obj) return "";
     return "@" + std::to_string(o);
 }
+
+// back11 only: a contained machine declared with its enclosing machine as UpperFsm offers get_upper(); the machine it
+// names must live in the same top-level object as the contained machine itself (copies share nothing)
+template <class Fsm> auto link_check_impl(Fsm& fsm, int) -> decltype(fsm.get_upper(), void()) {
+    using U = std::remove_pointer_t<decltype(fsm.get_upper())>;
+    if constexpr (!std::is_void_v<U>) {
+        const void* u = fsm.get_upper();
+        int me = owner_of(&fsm);
+        if (u && me >= 0 && owner_of(u) != me) tok("!UPPER@" + std::to_string(owner_of(u)));
+    }
+}
+template <class Fsm> void link_check_impl(Fsm&, long) {}
+template <class Fsm> void link_check(Fsm& fsm) { link_check_impl(fsm, 0); }
 
 // event description: generated code provides overloads rt_describe(const E&) -> std::string
 struct AnyTag {};
@@ -200,6 +217,7 @@ template <class Ev, class Fsm>
 bool guard(int n, const Ev& e, Fsm& fsm) {
     Ctx& c = C();
     bool v;
+    link_check(fsm);
     if ((frozen_atoms() >> n) & 1ULL) v = (c.frozen_ref() >> n) & 1ULL; else v = (c.val >> n) & 1ULL;
     tok("g" + std::to_string(n) + "=" + (v ? "1" : "0") + "/" + rt_describe(e) + owner_tag(&fsm));
     // guards of completion rows are no script positions: how often they are consulted differs by documented design
@@ -209,6 +227,7 @@ bool guard(int n, const Ev& e, Fsm& fsm) {
 }
 template <class Ev, class Fsm>
 void action(int n, const Ev& e, Fsm& fsm) {
+    link_check(fsm);
     tok("a" + std::to_string(n) + "/" + rt_describe(e) + owner_tag(&fsm));
     after_callback(fsm);
 }
@@ -220,12 +239,14 @@ void entry(int sidx, const char* name, const void* self, const Ev& e, Fsm& fsm) 
     if (sidx >= 0 && sidx < (int)ft.size() && ft[sidx]) {
         c.frozen_ref() = (c.frozen_ref() & ~ft[sidx]) | (c.val & ft[sidx]);
     }
+    link_check(fsm);
     tok(std::string("en:") + name + "/" + rt_describe(e) + owner_tag(self));
     after_callback(fsm);
 }
 template <class Ev, class Fsm>
 void exit_(int sidx, const char* name, const void* self, const Ev& e, Fsm& fsm) {
     (void)sidx;
+    link_check(fsm);
     tok(std::string("ex:") + name + "/" + rt_describe(e) + owner_tag(self));
     after_callback(fsm);
 }
